@@ -185,12 +185,44 @@ def check_traversal_predicate(rep, ctx):
     rep.add(Query("contains_traversal_characters() is true exactly when the request url's path contains \"..\"", "holds" if ok else "violated", detail, 0, "mirsym", key="C01.traversal-predicate", reproduced=None))
 
 
+def check_empty_response(rep, ctx, prefix="C01"):
+    """the refusals are `empty_response(status)`: the helper the handler's paths leave uninterpreted returns a response carrying exactly
+    the status it was given, on every path"""
+    try:
+        w = ctx.method("ProxyServer", "empty_response")
+    except Exception as e:
+        rep.add(Query("empty_response located", "inconclusive", str(e), 0, "mirsym", key=prefix + ".empty-response"))
+        return
+    eng = ctx.engine()
+    paths = eng.explore(w)
+    rep.functions_encoded.append(w)
+    for i, r in enumerate(paths):
+        new = [e for e in r.events if e.kind == "call" and e.callee.endswith("Response::new")]
+        sm = [e for e in r.events if e.kind == "call" and e.callee.endswith("status_mut")]
+        st = [e for e in r.events if e.kind == "store" and e.callee.endswith("status_mut")]
+        builder = [e for e in r.events if e.kind == "call" and re.search(r"Builder::status$", e.callee)]
+        ok = r.status == "return" and len(new) == 1 and same_origin(r.ret, new[0].ret) and len(sm) == 1 and same_origin(sm[0].rargs[0], new[0].ret) and \
+            len(st) == 1 and st[0].rargs[0] is sm[0].ret and same_origin(st[0].rargs[1], r.args[0])
+        if not ok and builder:
+            ok = r.status == "return" and len(builder) == 1 and same_origin(builder[0].rargs[1], r.args[0]) and derives_chain(r, builder[0])
+        rep.add(Query("empty_response path %d: the response returned carries the status it was given (one write of the argument through status_mut)" % i,
+                      "holds" if ok else "violated", "status %s, status_mut calls %d, stores %d" % (r.status, len(sm), len(st)), 0, "mirsym", key=prefix + ".empty-response", reproduced=None))
+    rep.add(Query("witness: empty_response explored", "witness-hit" if paths else "witness-missed", "%d paths" % len(paths), 0, "mirsym"))
+
+
+def derives_chain(r, builder_ev):
+    """Response::builder().status(s).body(..).unwrap(): the returned value comes from that builder"""
+    from p_c08 import derives
+    return derives(r.ret, builder_ev.ret, r.events) or any(e.kind == "call" and e.callee.endswith("Builder::body") and derives(e.rargs[0], builder_ev.ret, r.events) and derives(r.ret, e.ret, r.events) for e in r.events)
+
+
 def check(rep, tier, seed):
     ctx = Ctx("agent")
     rep.extra["mir_dump"] = {"cache_hit": ctx.dump.cache_hit, "tree_hash": ctx.dump.hash, "seconds": round(ctx.dump.seconds, 1)}
     hm = HandlerModel(ctx, rep)
     rep.bounds["handler"] = "%d complete paths; loop bound 2 (the handler has no loops besides await polling); inline depth <= 3; every .await assumed to complete (Pending pruned)" % len(hm.paths)
     check_mediation(rep, hm)
+    check_empty_response(rep, ctx)
     check_rules_selection(rep, ctx)
     check_traversal_predicate(rep, ctx)
     # the built-in authorizers the handler delegates to are part of "authorized": their obligations (non-elevated callers of
